@@ -131,22 +131,34 @@ def rule_g3(ctx):
 def rule_g4(ctx):
     f = ctx.repo.func(EVAL, "evaluate_semantic_predicate_formula", "C06.G4")
     construct = f"{EVAL}:evaluate_semantic_predicate_formula"
+    n_true = 0
     for r in [r for r in walk_local(f) if isinstance(r, ast.Return)]:
         s = src(r.value)
-        fs = facts(r)
+        fs = close_facts(facts(r))
         if s == "Some(ThreeValuedTruth.true())":
-            ok = has_fact(fs, "eval_res.true()") or (any(f_.text.startswith("not eval_res.ready()") and not f_.positive for f_ in fs) or any("eval_res.ready()" in f_.text for f_ in fs))
-            ctx.check(ok, "G4-semantic-predicate", construct, "TRUE only from eval_res.true() / ready binding of constants", site(r), "TRUE returned without the predicate reporting it", "from the predicate's result")
+            n_true += 1
+            if has_fact(fs, "eval_res.true()"):
+                ctx.ok("G4-semantic-predicate", construct, "TRUE from eval_res.true()", site(r), "the predicate's own verdict")
+                continue
+            # binding case: the predicate answered with an assignment; only bindings of CONSTANTS make the atom true as it stands -
+            # a binding of a tree is a proposed tree update ("satisfiable after changing the argument"), i.e. not yet true
+            ready = has_fact(fs, "eval_res.ready()") or has_fact(fs, "not eval_res.ready()", False)
+            consts = any(f_.positive and f_.text.replace("\n", " ") == "all((isinstance(key, Constant) for key in eval_res.result))" for f_ in fs)
+            ctx.check(ready, "G4-semantic-predicate", construct, "binding TRUE only for a ready result", site(r), "TRUE returned for a result that may not be ready", "dominated by eval_res.ready()")
+            ctx.check(consts, "G4-semantic-predicate", construct, "binding TRUE only when every bound key is a Constant", site(r),
+                      "TRUE is returned for a binding whose keys may be trees: such a result proposes a tree UPDATE (e.g. count on a tree that does not have the requested number of needles yet), "
+                      "so the atom is not true of the tree as it stands and a completion can falsify it", "dominated by all(isinstance(key, Constant) for key in eval_res.result)")
         elif s == "Some(ThreeValuedTruth.false())":
             ctx.check(has_fact(fs, "eval_res.false()"), "G4-semantic-predicate", construct, "FALSE only from eval_res.false()", site(r), "FALSE returned without the predicate reporting it", "from the predicate's result")
         elif s == "Some(ThreeValuedTruth.unknown())":
             ctx.ok("G4-semantic-predicate", construct, "UNKNOWN for not-ready / tree-updating results", site(r), "conservative")
+        elif s in ("Some(ThreeValuedTruth.from_bool(eval_res.true()))", "Some(ThreeValuedTruth.from_bool(not eval_res.false()))"):
+            ok = has_fact(fs, "eval_res.is_boolean()") or has_fact(fs, "eval_res.true() or eval_res.false()")
+            ctx.check(ok, "G4-semantic-predicate", construct, "from_bool only for a Boolean result", site(r), "from_bool(eval_res.true()) turns a binding / not-ready result into FALSE", "dominated by eval_res.is_boolean()")
         elif s != "Nothing":
             raise Unrecognised("C06.G4", construct, f"return {s}")
-    # not-ready test precedes the constant binding
-    tests = [src(n.test).replace("\n", " ") for n in f.body if isinstance(n, ast.If)]
-    ok = any(t.startswith("not eval_res.ready() or not all(") for t in tests)
-    ctx.check(ok, "G4-semantic-predicate", construct, "not ready or binds trees -> UNKNOWN", site(f), f"tests: {tests}", "gate present")
+    if n_true == 0:
+        raise Unrecognised("C06.G4", construct, "no TRUE return found")
 
 
 def rule_g5(ctx):
